@@ -17,15 +17,23 @@ RClass == {"file:open", "file:exec", "file:link", "file:mknod", "file:chmod", "f
 Masks == {"r", "w", "rw", "a", "c", "d", "wc", "x", "m", "rm", "k", "l", "wr", "ac"}
 Verdicts == {"ALLOWED", "DENIED", "AUDIT"}
 
-Init == rec = <<>> /\ mode \in {"fields", "rules"}
+\* histories (C16): several records of ONE profile on two paths, with masks whose letters collapse (wc, ac, wd -> w)
+MaxH == IF "VERIF_HIST_LEN" \in DOMAIN IOEnv THEN atoi(IOEnv.VERIF_HIST_LEN) ELSE 3
+HMasks == {"r", "w", "wc", "ac", "wd", "wrc", "k"}
+ExtendH == /\ mode = "hist" /\ Len(rec) < MaxH
+           /\ \E p \in 1..2, m \in HMasks : rec' = Append(rec, [p |-> p, mask |-> m])
+           /\ UNCHANGED mode
+
+Init == rec = <<>> /\ mode \in {"fields", "rules", "hist"}
 ExtendF == /\ mode = "fields" /\ Len(rec) < MaxF
            /\ \E f \in Fields : (\A i \in DOMAIN rec : rec[i].k # f.k) /\ rec' = Append(rec, f)
            /\ UNCHANGED mode
 PickR == /\ mode = "rules" /\ rec = <<>>
-         /\ \E c \in RClass, m \in Masks, v \in Verdicts, own \in BOOLEAN, n \in 1..24 :
+         /\ \E c \in RClass, m \in Masks, v \in Verdicts, own \in BOOLEAN, n \in 1..27 :
                rec' = <<[cls |-> c, mask |-> m, verdict |-> v, own |-> own, nameclass |-> n]>>
          /\ mode' = "ruledone"
-Spec == Init /\ [][ExtendF \/ PickR]_<<rec, mode>>
+Spec == Init /\ [][ExtendF \/ PickR \/ ExtendH]_<<rec, mode>>
 Emit == /\ (mode = "fields" /\ rec # <<>> => PrintT("BEHF " \o ToJson(rec)))
         /\ (mode = "ruledone" => PrintT("BEHR " \o ToJson(rec[1])))
+        /\ (mode = "hist" /\ Len(rec) >= 2 => PrintT("BEHH " \o ToJson(rec)))
 =============================================================================
